@@ -18,8 +18,8 @@ MANIFEST = {
 
 INVARIANTS = ["C06_Batch", "C06_Groups", "C06_Counts"]
 PROPERTIES = []
-QUICK = ["nest", "grp2"]
-THOROUGH = ["nest", "grp2", "chain2", "upd2", "diamond", "clean"]
+QUICK = ['nest_s', 'grp2']
+THOROUGH = ['nest_s', 'grp2', 'chain2', 'upd2', 'diamond', 'clean', 'sib', 'nest']
 FINDINGS = [("uncchild", "upd2", ["C06_Batch"])]
 
 
